@@ -424,7 +424,9 @@ class _Builder:
                 f.items.append(Import(x, as_name))
         big = feat.big and d(st.integers(0, 24)) == 0
         self.special = None
-        if feat.extremes and d(st.integers(0, 59)) == 0:
+        # (an interior value: 0 is what Hypothesis' minimal and near-minimal examples draw, which made the most
+        # expensive shape the most frequent one)
+        if feat.extremes and d(st.integers(0, 59)) == 31:
             self.special = d(st.sampled_from(["huge_array", "many_fields", "deep"]))
         ndefs = d(st.integers(1, feat.max_defs))
         kinds = []
@@ -687,7 +689,14 @@ def values(draw: Any, m: Message, max_drawn_leaves: int = 96) -> Dict[str, Any]:
     lvs = ref.leaves(m)
     if len(lvs) <= max_drawn_leaves:
         return build_value(m, [draw(leaf_strategy(lf)) for lf in lvs])
-    rnd = draw(st.randoms(use_true_random=False))
+    if len(lvs) <= 1500:
+        rnd = draw(st.randoms(use_true_random=False))
+    else:
+        # every call of a Hypothesis-backed Random is a recorded draw and a case has room for ~8k of them: very
+        # large messages take ONE drawn seed and expand it deterministically (still a pure function of the draws)
+        import random as _random
+
+        rnd = _random.Random(draw(st.integers(0, 2**32 - 1)))
     out = []
     for lf in lvs:
         if lf.kind == "bool":
@@ -794,8 +803,18 @@ def unit_labels(unit: Unit) -> List[str]:
                 labs.add("nested_enum")
         for m in iter_messages(f):
             labs.update(message_labels(m))
-            if enclosing_messages(m):
+            encl = enclosing_messages(m)
+            if encl:
                 labs.add("nested_message")
+            if len(encl) >= 4:
+                labs.add("limit:nesting_depth_ge_5")
+            if len(m.fields()) >= 200:
+                labs.add("limit:fields_ge_200")
+            if ref.nbits(m) >= 65519:
+                labs.add("limit:message_bits_ge_65519")
+            for fl in m.fields():
+                if isinstance(fl.type, TArray) and fl.type.cap >= 65519:
+                    labs.add("limit:capacity_ge_65519")
         nested_names = [it.name for m in iter_messages(f) for it in m.nested()]
         if len(nested_names) != len(set(nested_names)):
             labs.add("shared_nested_name")
